@@ -278,8 +278,15 @@ def run_check(mod, tier, seed):
             continue
         total.merge(payload)
         done_units += 1
+        if total.nviol and os.environ.get('VERIF_STOP_ON_FIRST'):
+            # tooling only (mutation campaigns): the verdict is settled, skip the remaining units
+            if pool is not None:
+                pool.terminate()
+            total.count('stopped_after_first_violating_unit')
+            break
     if pool is not None:
-        pool.close()
+        if not (total.nviol and os.environ.get('VERIF_STOP_ON_FIRST')):
+            pool.close()
         pool.join()
     if errors:
         for unit, tb in errors[:3]:
